@@ -1,3 +1,5 @@
 pub mod c04;
 pub mod c05;
+pub mod dirgen;
 pub mod fsx;
+pub mod pure;
